@@ -13,7 +13,7 @@ type weighted struct {
 var profiles = map[string][]weighted{
 	"safety": {{"apply", 30}, {"tick", 8}, {"isolate", 7}, {"partition", 6}, {"oneway", 3}, {"heal", 9}, {"crash", 6}, {"crashop", 6},
 		{"restart", 7}, {"restartall", 1}, {"lossy", 3}, {"snapshot", 3}, {"addvoter", 2}, {"addnonvoter", 1}, {"demote", 1}, {"remove", 2},
-		{"transfer", 3}, {"verify", 2}, {"barrier", 2}, {"reload", 2}, {"shutdown", 1}, {"stalesuffix", 1}, {"lagcompact", 1}},
+		{"transfer", 3}, {"verify", 2}, {"barrier", 2}, {"reload", 2}, {"shutdown", 1}, {"stalesuffix", 1}, {"lagcompact", 1}, {"inheritedtail", 1}},
 	"election": {{"apply", 15}, {"tick", 8}, {"isolate", 12}, {"partition", 8}, {"oneway", 5}, {"heal", 12}, {"crash", 6}, {"crashop", 10},
 		{"restart", 10}, {"lossy", 6}, {"transfer", 6}, {"reload", 5}, {"addvoter", 1}, {"demote", 1}, {"remove", 2}, {"cutleader", 4}},
 	"snapshot": {{"apply", 35}, {"tick", 6}, {"lagcompact", 8}, {"stalesuffix", 6}, {"snapshot", 8}, {"crash", 6}, {"crashop", 6}, {"restart", 8},
@@ -25,7 +25,7 @@ var profiles = map[string][]weighted{
 	"membership": {{"apply", 20}, {"tick", 6}, {"addvoter", 9}, {"addnonvoter", 6}, {"demote", 7}, {"remove", 8}, {"transfer", 6}, {"isolate", 6},
 		{"heal", 8}, {"crash", 5}, {"restart", 6}, {"partition", 4}, {"crashop", 4}, {"reload", 2}, {"cutleader", 2}, {"cfgrestart", 3}},
 	"clients": {{"apply", 45}, {"tick", 5}, {"barrier", 8}, {"transfer", 6}, {"isolate", 5}, {"heal", 6}, {"remove", 2}, {"demote", 1}, {"crash", 4},
-		{"restart", 5}, {"cutleader", 3}, {"lossy", 2}, {"snapshot", 2}},
+		{"restart", 5}, {"cutleader", 3}, {"lossy", 2}, {"snapshot", 2}, {"inheritedtail", 4}},
 	"verify": {{"verify", 25}, {"cutleader", 10}, {"partition", 8}, {"isolate", 5}, {"heal", 10}, {"apply", 15}, {"lossy", 6}, {"addnonvoter", 2},
 		{"demote", 2}, {"tick", 8}, {"transfer", 2}, {"crash", 2}, {"restart", 3}},
 	"converge": {{"apply", 30}, {"tick", 5}, {"stalesuffix", 10}, {"lagcompact", 10}, {"crash", 8}, {"restart", 8}, {"isolate", 8}, {"partition", 8},
@@ -122,6 +122,11 @@ func GenShape(t *rapid.T, p *Program) {
 	p.ShutRm = rapid.Bool().Draw(t, "shutdownOnRemove")
 	p.Pipeline = rapid.Bool().Draw(t, "pipeline")
 	p.RPCms = oneOf(t, "rpcTimeout", 100, 100, 30, 200)
+	switch prof {
+	case "lease", "leaselong", "prevote": // timing claims stated for an instantaneous network
+	default:
+		p.LatencyMs = oneOf(t, "latency", 0, 0, 0, 1, 2, 3)
+	}
 }
 
 func genAction(t *rapid.T, p *Program, ws []weighted) Action {
@@ -175,6 +180,9 @@ func genAction(t *rapid.T, p *Program, ws []weighted) Action {
 	case "lagcompact":
 		a.N = oneOf(t, "writes", 3, 6, 12, 30)
 		a.Arg = rapid.IntRange(0, 1).Draw(t, "crashIt")
+	case "inheritedtail":
+		a.N = oneOf(t, "tail", 1, 2, 3, 5)
+		a.Arg = oneOf(t, "fresh", 1, 2, 3)
 	case "cfgrestart":
 		a.N = oneOf(t, "writes", 0, 1, 1, 2, 3)
 		a.Arg = rapid.IntRange(0, 3).Draw(t, "change")
